@@ -89,11 +89,12 @@ Definition memw_of (f : filt) (c : N) : option N :=
   end.
 Definition upd_cnt (f : filt) (bits c : N) : eff := mkE (f_cache f false c) bits (memw_of f c).
 
-(* The switch [fx] selects between the code before and after the three repairs fixes/15_*.patch:
+(* The switch [fx] selects between the code before and after the four repairs fixes/15_*.patch:
      fx = true   the REPAIRED code (this is what [step]/[run] below use, i.e. what is extracted and run against /repo):
                  (A) internal_update also writes DIRTY_BITS_VALUE to the count stored in wrapped memory,
                  (B) internal_query_and_update leaves the count alone while is_dirty_ is set,
-                 (D) union_with / intersect / invert refuse read-only filters;
+                 (D) union_with / intersect / invert refuse read-only filters,
+                 (E) deserialize / wrap compute the capacity from the header in 64 bits;
      fx = false  the code before the repairs, kept as a variant for the refutations in Regression_bloom.v. *)
 Section Core.
   Variable fx : bool.
@@ -171,7 +172,10 @@ Inductive parsed :=
 | PEmpty (nbits nh seed : N)                       (* empty flag: a fresh owned filter is built with the public constructor *)
 | PFull (cap nh seed nbs : N) (nbytes : nat).      (* standard image: capacity, stored count, bit-array length in bytes *)
 
-Definition parse (d : list N) (read_only wrap stream : bool) : parsed :=
+(* [wide] = true: the capacity is computed in 64 bits (static_cast<uint64_t>(num_longs) << 6,
+   fixes/15_bloom_deserialize_capacity_64bit.patch); false: the code before that repair computed num_longs << 6 on
+   uint32_t, which truncates the capacity of filters of 2^32 bits and more *)
+Definition parse (wide : bool) (d : list N) (read_only wrap stream : bool) : parsed :=
   let len := length d in
   if Nat.ltb len 8 then PRefuse else
   let prelongs := nth 0 d 0 in
@@ -186,17 +190,18 @@ Definition parse (d : list N) (read_only wrap stream : bool) : parsed :=
   let nh := rd d 4 2 in
   let seed := rd d 8 8 in
   let nlongs := rd d 16 4 in
+  let capbits := if wide then N.shiftl nlongs 6 else w32 (N.shiftl nlongs 6) in
   if wrap && empty && negb read_only then PRefuse else
-  if empty then PEmpty (w32 (N.shiftl nlongs 6)) nh seed else
+  if empty then PEmpty capbits nh seed else
   if Nat.ltb len 32 then PRefuse else          (* unreachable for images produced by the library *)
   let nbs := rd d 24 8 in
   let nbytes := N.to_nat (w32 (N.shiftl nlongs 3)) in
   if negb wrap && Nat.ltb (len - 32) nbytes then PRefuse else
-  PFull (round_cap (w32 (N.shiftl nlongs 6))) nh seed nbs nbytes.
+  PFull (round_cap capbits) nh seed nbs nbytes.
 
 (* deserialize(bytes) / deserialize(istream): an owned filter with a copy of the bit array *)
-Definition deser_filt (d : list N) (stream : bool) : option filt :=
-  match parse d false false stream with
+Definition deser_filt (wide : bool) (d : list N) (stream : bool) : option filt :=
+  match parse wide d false false stream with
   | PRefuse => None
   | PEmpty nbits nh seed => new_owned nbits nh seed
   | PFull cap nh seed nbs nbytes => Some (mkF seed nh cap (N.eqb nbs DIRTY) false nbs None (rd d 32 nbytes))
@@ -204,8 +209,8 @@ Definition deser_filt (d : list N) (stream : bool) : option filt :=
 
 (* wrap / writable_wrap of buffer register b: a view (or, for an empty image, a fresh owned filter).
    Private constructor: a read-only wrap of a dirty image recounts (is_dirty_ stays set). *)
-Definition wrap_filt (d : list N) (b : Z) (writable : bool) : option filt :=
-  match parse d (negb writable) true false with
+Definition wrap_filt (wide : bool) (d : list N) (b : Z) (writable : bool) : option filt :=
+  match parse wide d (negb writable) true false with
   | PRefuse => None
   | PEmpty nbits nh seed => new_owned nbits nh seed
   | PFull cap nh seed nbs nbytes =>
@@ -584,7 +589,7 @@ Section WithHash.
     | ODeser r b stream =>
         match reg_get bs b with
         | Some be =>
-            match deser_filt (b_data be) stream with
+            match deser_filt fx (b_data be) stream with
             | Some f => (mkW (reg_set fs r (mkFE f (b_must be) 0 (b_haz be) 0 0)) bs, (ok, []))
             | None => (w, rfs)
             end
@@ -593,7 +598,7 @@ Section WithHash.
     | OWrap r b writable =>
         match reg_get bs b with
         | Some be =>
-            match wrap_filt (b_data be) b writable with
+            match wrap_filt fx (b_data be) b writable with
             | Some f =>
                 if is_view f
                 then (mkW (reg_set fs r (mkFE f (b_must be) (b_epoch be) (b_haz be) (b_gen be) (b_mut be))) bs, (ok, []))
